@@ -110,6 +110,15 @@ def compare_rust(committed: bytes, generated_path: pathlib.Path, edition: str, r
     n = rust_items(committed)
     if g == committed:
         return None, n
+    # "byte-identical after rustfmt" is read literally: rustfmt(generated) == committed bytes, the way
+    # the build produces the file.  When only the layout of the committed file differs (the same
+    # formatter pass applied to it gives the generated text) the violation is named as such.
+    layout_only = False
+    try:
+        q = subprocess.run([rustfmt, "--edition", edition], input=committed, capture_output=True, timeout=300, cwd=cwd)
+        layout_only = q.returncode == 0 and q.stdout == g
+    except Exception:
+        pass
     la, lb = committed.split(b"\n"), g.split(b"\n")
     i = next((j for j in range(min(len(la), len(lb))) if la[j] != lb[j]), min(len(la), len(lb)))
     # name the enclosing item
@@ -119,6 +128,8 @@ def compare_rust(committed: bytes, generated_path: pathlib.Path, edition: str, r
         if m:
             item = m.group(3)
             break
+    if layout_only:
+        return ("rust:committed-layout-differs", f"committed lib.rs is not the formatter's output (only layout differs, e.g. a hand edit of spacing/import order or a formatter configuration change not propagated) at line {i + 1}: committed {la[i][:120] if i < len(la) else b'<eof>'!r} formatter output {lb[i][:120] if i < len(lb) else b'<eof>'!r}"), n
     return ("rust:item-differs", f"lib.rs differs at line {i + 1} (item {item.decode()}): committed {la[i][:120] if i < len(la) else b'<eof>'!r} generated {lb[i][:120] if i < len(lb) else b'<eof>'!r}"), n
 
 
